@@ -25,105 +25,295 @@ theorem closeTo_iff (s : K) (a b : Pt K) :
   unfold closeTo
   rw [Bool.and_eq_true, leB_iff, leB_iff, absP_eq, absP_eq]
 
-theorem mergeTail_nil (s : K) : mergeTail s ([] : List (Pt K)) = [] := by
-  rw [mergeTail]; intro a b rest h; cases h
+theorem closeTo_symm (s : K) (a b : Pt K) : closeTo s a b = closeTo s b a := by
+  have h : (closeTo s a b = true) ↔ (closeTo s b a = true) := by
+    rw [closeTo_iff, closeTo_iff, abs_sub_comm a.1 b.1, abs_sub_comm a.2 b.2]
+  cases h1 : closeTo s a b <;> cases h2 : closeTo s b a <;> simp_all
 
-theorem mergeTail_single (s : K) (a : Pt K) : mergeTail s [a] = [a] := by
-  rw [mergeTail]; intro a b rest h; cases h
+/-- two points are farther apart than `s` in at least one coordinate -/
+def FarApart (s : K) (a b : Pt K) : Prop := ¬ (|a.1 - b.1| ≤ s ∧ |a.2 - b.2| ≤ s)
 
-theorem mergeTail_cons_cons (s : K) (a b : Pt K) (rest : List (Pt K)) :
-    mergeTail s (a :: b :: rest) =
-      if closeTo s a b then mergeTail s (b :: rest) else a :: mergeTail s (b :: rest) := by
-  rw [mergeTail]
+theorem farApart_iff (s : K) (a b : Pt K) : FarApart s a b ↔ closeTo s a b = false := by
+  unfold FarApart
+  rw [← closeTo_iff]
+  cases closeTo s a b <;> simp
 
-theorem mergeTail_sublist (s : K) : ∀ l : List (Pt K), (mergeTail s l).Sublist l := by
+theorem FarApart_symm {s : K} {a b : Pt K} (h : FarApart s a b) : FarApart s b a := by
+  rw [farApart_iff] at h ⊢
+  rw [closeTo_symm]; exact h
+
+/-- every two consecutive vertices of the list are farther apart than `s` in some coordinate -/
+def Separated (s : K) : List (Pt K) → Prop
+  | a :: b :: rest => FarApart s a b ∧ Separated s (b :: rest)
+  | _ => True
+
+/-! ### the greedy backward pass -/
+
+theorem greedyKeep_nil (s : K) : greedyKeep s ([] : List (Pt K)) = [] := rfl
+
+theorem greedyKeep_cons (s : K) (v : Pt K) (l : List (Pt K)) :
+    greedyKeep s (v :: l) = greedyStep s v (greedyKeep s l) := rfl
+
+theorem greedyStep_nil (s : K) (v : Pt K) : greedyStep s v [] = [v] := rfl
+
+theorem greedyStep_cons (s : K) (v j : Pt K) (ks : List (Pt K)) :
+    greedyStep s v (j :: ks) = if closeTo s v j then j :: ks else v :: j :: ks := rfl
+
+theorem greedyKeep_ne (s : K) : ∀ l : List (Pt K), l ≠ [] → greedyKeep s l ≠ [] := by
+  intro l hl
+  cases l with
+  | nil => exact absurd rfl hl
+  | cons v t =>
+    rw [greedyKeep_cons]
+    cases hk : greedyKeep s t with
+    | nil => rw [greedyStep_nil]; simp
+    | cons j ks => rw [greedyStep_cons]; split <;> simp
+
+theorem greedyKeep_sublist (s : K) : ∀ l : List (Pt K), (greedyKeep s l).Sublist l := by
   intro l
   induction l with
-  | nil => rw [mergeTail_nil]
-  | cons a t ih =>
-    cases t with
-    | nil => rw [mergeTail_single]
-    | cons b rest =>
-      rw [mergeTail_cons_cons]
+  | nil => exact List.Sublist.slnil
+  | cons v t ih =>
+    rw [greedyKeep_cons]
+    cases hk : greedyKeep s t with
+    | nil => rw [greedyStep_nil]; rw [hk] at ih; exact List.Sublist.cons_cons v ih
+    | cons j ks =>
+      rw [greedyStep_cons]
+      rw [hk] at ih
       split
-      · exact List.Sublist.cons a ih
-      · exact List.Sublist.cons_cons a ih
+      · exact List.Sublist.cons v ih
+      · exact List.Sublist.cons_cons v ih
 
-theorem mergeTail_getLast (s : K) : ∀ l : List (Pt K), (mergeTail s l).getLast? = l.getLast? := by
+theorem greedyKeep_getLast (s : K) : ∀ l : List (Pt K), (greedyKeep s l).getLast? = l.getLast? := by
   intro l
   induction l with
-  | nil => rw [mergeTail_nil]
-  | cons a t ih =>
+  | nil => rfl
+  | cons v t ih =>
+    rw [greedyKeep_cons]
     cases t with
-    | nil => rw [mergeTail_single]
-    | cons b rest =>
-      rw [mergeTail_cons_cons]
-      have hne : mergeTail s (b :: rest) ≠ [] := by
-        intro h
-        rw [h] at ih
-        exact absurd (List.getLast?_eq_none_iff.mp ih.symm) (by simp)
-      split
-      · rw [ih, List.getLast?_cons_cons]
-      · rw [List.getLast?_cons_of_ne_nil hne, ih, List.getLast?_cons_cons]
+    | nil => rfl
+    | cons w t' =>
+      have hne := greedyKeep_ne s (w :: t') (by simp)
+      cases hk : greedyKeep s (w :: t') with
+      | nil => exact absurd hk hne
+      | cons j ks =>
+        rw [hk] at ih
+        rw [greedyStep_cons, List.getLast?_cons_cons]
+        split
+        · exact ih
+        · rw [List.getLast?_cons_cons]; exact ih
 
-theorem mergeTail_ne (s : K) (l : List (Pt K)) (h : l ≠ []) : mergeTail s l ≠ [] := by
-  intro he
-  have := mergeTail_getLast s l
-  rw [he] at this
-  exact h (List.getLast?_eq_none_iff.mp this.symm)
-
-/-- closed form of the loop behind the first vertex: a vertex is kept exactly when it is **not**
-close to its successor in the original list; the last vertex is always kept -/
-theorem mergeTail_eq (s : K) : ∀ l : List (Pt K),
-    mergeTail s l =
-      ((l.zip l.tail).filter (fun e => !closeTo s e.1 e.2)).map Prod.fst ++ l.getLast?.toList := by
+theorem greedyKeep_separated (s : K) : ∀ l : List (Pt K), Separated s (greedyKeep s l) := by
   intro l
   induction l with
-  | nil => rw [mergeTail_nil]; rfl
+  | nil => trivial
+  | cons v t ih =>
+    rw [greedyKeep_cons]
+    cases hk : greedyKeep s t with
+    | nil => rw [greedyStep_nil]; trivial
+    | cons j ks =>
+      rw [hk] at ih
+      rw [greedyStep_cons]
+      by_cases hc : closeTo s v j = true
+      · rw [if_pos hc]; exact ih
+      · rw [if_neg hc]
+        refine ⟨?_, ih⟩
+        rw [farApart_iff]
+        simpa using hc
+
+/-- every visited vertex is kept or within `s` (both coordinates) of a vertex that is kept -/
+theorem greedyKeep_covers (s : K) : ∀ l : List (Pt K), ∀ x ∈ l,
+    x ∈ greedyKeep s l ∨ ∃ y ∈ greedyKeep s l, closeTo s x y = true := by
+  intro l
+  induction l with
+  | nil => intro x hx; cases hx
+  | cons v t ih =>
+    intro x hx
+    rw [greedyKeep_cons]
+    have hsub : ∀ y ∈ greedyKeep s t, y ∈ greedyStep s v (greedyKeep s t) := by
+      intro y hy
+      cases hk : greedyKeep s t with
+      | nil => rw [hk] at hy; cases hy
+      | cons j ks =>
+        rw [hk] at hy
+        rw [greedyStep_cons]
+        split
+        · exact hy
+        · exact List.mem_cons_of_mem _ hy
+    rcases List.mem_cons.mp hx with e | e
+    · subst e
+      cases hk : greedyKeep s t with
+      | nil => left; rw [greedyStep_nil]; simp
+      | cons j ks =>
+        rw [greedyStep_cons]
+        by_cases hc : closeTo s x j = true
+        · rw [if_pos hc]; right; exact ⟨j, by simp, hc⟩
+        · rw [if_neg hc]; left; simp
+    · rcases ih x e with h | ⟨y, hy, hc⟩
+      · exact Or.inl (hsub x h)
+      · exact Or.inr ⟨y, hsub y hy, hc⟩
+
+theorem greedyKeep_id (s : K) : ∀ l : List (Pt K), Separated s l → greedyKeep s l = l := by
+  intro l
+  induction l with
+  | nil => intro _; rfl
+  | cons v t ih =>
+    intro h
+    rw [greedyKeep_cons]
+    cases t with
+    | nil => rfl
+    | cons w t' =>
+      rw [ih h.2, greedyStep_cons, if_neg]
+      have := (farApart_iff s v w).mp h.1
+      simp [this]
+
+/-! ### the `while` loop against the first vertex -/
+
+theorem dropClose_nil (s : K) (v0 : Pt K) : dropClose s v0 ([] : List (Pt K)) = [] := by
+  rw [dropClose]; intro a b rest h; cases h
+
+theorem dropClose_single (s : K) (v0 a : Pt K) : dropClose s v0 [a] = [a] := by
+  rw [dropClose]; intro a b rest h; cases h
+
+theorem dropClose_cons_cons (s : K) (v0 a b : Pt K) (rest : List (Pt K)) :
+    dropClose s v0 (a :: b :: rest) =
+      if closeTo s a v0 then dropClose s v0 (b :: rest) else a :: b :: rest := by
+  rw [dropClose]
+
+/-- what the `while` loop returns: a non-empty suffix; everything removed is within `s` of the
+first vertex; what is left is a single vertex or starts with a vertex far from the first one -/
+theorem dropClose_spec (s : K) (v0 : Pt K) : ∀ l : List (Pt K),
+    (∃ pre, l = pre ++ dropClose s v0 l ∧ ∀ x ∈ pre, closeTo s x v0 = true) ∧
+    (l ≠ [] → dropClose s v0 l ≠ []) ∧
+    ((∃ a, dropClose s v0 l = [a]) ∨ dropClose s v0 l = [] ∨
+      ∃ a b rest, dropClose s v0 l = a :: b :: rest ∧ closeTo s a v0 = false) := by
+  intro l
+  induction l with
+  | nil => rw [dropClose_nil]; exact ⟨⟨[], rfl, fun x hx => by cases hx⟩, fun h => h, Or.inr (Or.inl rfl)⟩
   | cons a t ih =>
     cases t with
-    | nil => rw [mergeTail_single]; rfl
+    | nil =>
+      rw [dropClose_single]
+      exact ⟨⟨[], rfl, fun x hx => by cases hx⟩, fun h => h, Or.inl ⟨a, rfl⟩⟩
     | cons b rest =>
-      rw [mergeTail_cons_cons, ih]
-      have ez : (a :: b :: rest).zip (a :: b :: rest).tail = (a, b) :: (b :: rest).zip (b :: rest).tail := rfl
-      rw [ez, List.filter_cons, List.getLast?_cons_cons]
-      by_cases hc : closeTo s a b = true
-      · simp [hc]
-      · simp [hc]
+      rw [dropClose_cons_cons]
+      by_cases hc : closeTo s a v0 = true
+      · rw [if_pos hc]
+        obtain ⟨⟨pre, hpre, hcl⟩, hne, hshape⟩ := ih
+        refine ⟨⟨a :: pre, by rw [List.cons_append, ← hpre], ?_⟩, fun _ => hne (by simp), hshape⟩
+        intro x hx
+        rcases List.mem_cons.mp hx with e | e
+        · rw [e]; exact hc
+        · exact hcl x e
+      · rw [if_neg hc]
+        refine ⟨⟨[], rfl, fun x hx => by cases hx⟩, fun _ => by simp, Or.inr (Or.inr ⟨a, b, rest, rfl, ?_⟩)⟩
+        simpa using hc
+
+theorem Separated_suffix (s : K) : ∀ (pre l : List (Pt K)), Separated s (pre ++ l) → Separated s l := by
+  intro pre
+  induction pre with
+  | nil => intro l h; exact h
+  | cons x pre ih =>
+    intro l h
+    apply ih
+    cases hp : pre ++ l with
+    | nil => trivial
+    | cons y t =>
+      rw [List.cons_append, hp] at h
+      exact h.2
+
+/-! ### the whole loop -/
+
+theorem mergeSep_cons (s : K) (v0 : Pt K) (rest : List (Pt K)) :
+    mergeSep s (v0 :: rest) = v0 :: dropClose s v0 (greedyKeep s rest) := rfl
 
 theorem mergeSep_sublist (s : K) (h : List (Pt K)) : (mergeSep s h).Sublist h := by
   cases h with
   | nil => exact List.Sublist.slnil
-  | cons v rest => exact List.Sublist.cons_cons v (mergeTail_sublist s rest)
+  | cons v rest =>
+    rw [mergeSep_cons]
+    obtain ⟨⟨pre, hpre, _⟩, _, _⟩ := dropClose_spec s v (greedyKeep s rest)
+    have h1 : (dropClose s v (greedyKeep s rest)).Sublist (greedyKeep s rest) := by
+      conv_rhs => rw [hpre]
+      exact List.sublist_append_right _ _
+    exact List.Sublist.cons_cons v (h1.trans (greedyKeep_sublist s rest))
 
 theorem mergeSep_head (s : K) (h : List (Pt K)) : (mergeSep s h).head? = h.head? := by
   cases h <;> rfl
+
+theorem dropClose_getLast (s : K) (v0 : Pt K) (l : List (Pt K)) :
+    (dropClose s v0 l).getLast? = l.getLast? := by
+  obtain ⟨⟨pre, hpre, _⟩, hne, _⟩ := dropClose_spec s v0 l
+  by_cases hl : l = []
+  · rw [hl, dropClose_nil]
+  · conv_rhs => rw [hpre]
+    rw [List.getLast?_append_of_ne_nil _ (hne hl)]
 
 theorem mergeSep_getLast (s : K) (h : List (Pt K)) : (mergeSep s h).getLast? = h.getLast? := by
   cases h with
   | nil => rfl
   | cons v rest =>
-    show (v :: mergeTail s rest).getLast? = _
+    rw [mergeSep_cons]
     cases rest with
-    | nil => rw [mergeTail_nil]
+    | nil => rfl
     | cons b r =>
-      rw [List.getLast?_cons_of_ne_nil (mergeTail_ne s _ (by simp)), mergeTail_getLast,
+      have hne : dropClose s v (greedyKeep s (b :: r)) ≠ [] :=
+        (dropClose_spec s v _).2.1 (greedyKeep_ne s _ (by simp))
+      rw [List.getLast?_cons_of_ne_nil hne, dropClose_getLast, greedyKeep_getLast,
         List.getLast?_cons_cons]
 
-/-- no interior vertex is close to its successor: the loop changes nothing -/
-theorem mergeTail_id (s : K) : ∀ l : List (Pt K),
-    (∀ e ∈ l.zip l.tail, closeTo s e.1 e.2 = false) → mergeTail s l = l := by
-  intro l
-  induction l with
-  | nil => intro _; rw [mergeTail_nil]
-  | cons a t ih =>
+/-- the result is the degenerate two-entry list, or every two consecutive vertices — the pair
+(first vertex, next kept vertex) included — are farther apart than `s` in some coordinate -/
+theorem mergeSep_separated (s : K) (v0 : Pt K) (rest : List (Pt K)) :
+    (∃ l, mergeSep s (v0 :: rest) = [v0, l]) ∨ mergeSep s (v0 :: rest) = [v0] ∨
+      Separated s (mergeSep s (v0 :: rest)) := by
+  rw [mergeSep_cons]
+  obtain ⟨⟨pre, hpre, _⟩, _, hshape⟩ := dropClose_spec s v0 (greedyKeep s rest)
+  rcases hshape with ⟨a, ha⟩ | hnil | ⟨a, b, r, hr, hfar⟩
+  · left; exact ⟨a, by rw [ha]⟩
+  · right; left; rw [hnil]
+  · right; right
+    have hsep : Separated s (dropClose s v0 (greedyKeep s rest)) := by
+      have := greedyKeep_separated s rest
+      rw [hpre] at this
+      exact Separated_suffix s pre _ this
+    rw [hr] at hsep ⊢
+    exact ⟨FarApart_symm ((farApart_iff s a v0).mpr hfar), hsep⟩
+
+theorem mergeSep_id (s : K) (v0 : Pt K) (rest : List (Pt K)) (h : Separated s (v0 :: rest)) :
+    mergeSep s (v0 :: rest) = v0 :: rest := by
+  rw [mergeSep_cons]
+  cases rest with
+  | nil => rfl
+  | cons a t =>
+    rw [greedyKeep_id s _ h.2]
     cases t with
-    | nil => intro _; rw [mergeTail_single]
-    | cons b rest =>
-      intro h
-      have ez : (a :: b :: rest).zip (a :: b :: rest).tail = (a, b) :: (b :: rest).zip (b :: rest).tail := rfl
-      rw [ez] at h
-      rw [mergeTail_cons_cons, h (a, b) (by simp), ih (fun e he => h e (List.mem_cons_of_mem _ he))]
-      simp
+    | nil => rw [dropClose_single]
+    | cons b r =>
+      rw [dropClose_cons_cons, if_neg]
+      have := (farApart_iff s a v0).mp (FarApart_symm h.1)
+      simp [this]
+
+/-- every vertex of the input is kept, or within `s` of a kept vertex, or within `s` of a vertex
+that is itself within `s` of the first vertex (which is kept) -/
+theorem mergeSep_covers (s : K) (v0 : Pt K) (rest : List (Pt K)) : ∀ x ∈ v0 :: rest,
+    x ∈ mergeSep s (v0 :: rest) ∨ (∃ y ∈ mergeSep s (v0 :: rest), closeTo s x y = true) ∨
+      ∃ j, closeTo s x j = true ∧ closeTo s j v0 = true := by
+  intro x hx
+  rw [mergeSep_cons]
+  rcases List.mem_cons.mp hx with e | e
+  · left; rw [e]; simp
+  · obtain ⟨⟨pre, hpre, hcl⟩, _, _⟩ := dropClose_spec s v0 (greedyKeep s rest)
+    have split : ∀ y ∈ greedyKeep s rest, y ∈ pre ∨ y ∈ dropClose s v0 (greedyKeep s rest) := by
+      intro y hy
+      rw [hpre] at hy
+      exact List.mem_append.mp hy
+    rcases greedyKeep_covers s rest x e with h | ⟨y, hy, hc⟩
+    · rcases split x h with h' | h'
+      · right; left; exact ⟨v0, by simp, hcl x h'⟩
+      · left; exact List.mem_cons_of_mem _ h'
+    · rcases split y hy with h' | h'
+      · right; right; exact ⟨y, hc, hcl y h'⟩
+      · right; left; exact ⟨y, List.mem_cons_of_mem _ h', hc⟩
 
 end TW
